@@ -2322,6 +2322,8 @@ class _Ops:
             self.c["probes"]["module_switch:" + how] += 1
             if self._holds(x.obj) != before:
                 return StepResult("ok", "cast-changed", [self.viol("C09", "cast-changed-state", x, how, {})])
+            if how in ("freeze", "unfreeze"):
+                self.hot = [x.hid]  # what follows (evaluations, in-place changes, reloads) concentrates on this handle
             return StepResult("ok", "cast:" + how)  # nothing replaced: model state unchanged
         st, r = self.guarded(lambda: x.obj.double().float())
         bad = self.classify(st, r, x, "double-float")
@@ -3014,7 +3016,12 @@ class _Gen:
     def gen_cast(self, rng):
         how = rng.weighted([("double-float", 3), ("freeze", 1.5), ("unfreeze", 1.5), ("train-eval", 1), ("zero_grad", 1), ("to-same", 1)])
         if how != "double-float":
-            x = self.pick(rng, lambda y: not self.has_none(y))
+            x = None
+            if how == "freeze" and rng.chance(0.7):
+                # optimisable parameters that are frozen for a while (fine-tuning, evaluation phases)
+                x = self.pick(rng, lambda y: not self.has_none(y) and not y.is_comp and kind_of(y.obj) == "P" and y.obj.params.requires_grad)
+            if x is None:
+                x = self.pick(rng, lambda y: not self.has_none(y))
             return None if x is None else {"op": "cast", "h": x.hid, "how": how}
         x = self.pick(rng, lambda y: not self.has_none(y) and not any(kind_of(e.obj) in ("C", "L") for e in self.elems(y)))
         return None if x is None else {"op": "cast", "h": x.hid}
